@@ -91,6 +91,7 @@ type Frame struct {
 	predVar map[*ssa.BasicBlock]string
 	retPos  token.Pos
 	frame   *frameSpec
+	ghostArgs map[string]Val
 }
 
 func (vc *VC) newFrame(fn *ssa.Function, parent *Frame) *Frame {
@@ -373,6 +374,34 @@ func (vc *VC) valueFact(env Env, term string, t types.Type) string {
 
 // ---------------------------------------------------------------- lvalues
 
+// fvReadOnly: the closure only reads the captured variable (possibly passing it on to nested closures that only read it).
+func fvReadOnly(fv *ssa.FreeVar) bool {
+	if fv.Referrers() == nil {
+		return true
+	}
+	for _, r := range *fv.Referrers() {
+		switch r := r.(type) {
+		case *ssa.UnOp:
+			if r.Op != token.MUL {
+				return false
+			}
+		case *ssa.DebugRef:
+		case *ssa.MakeClosure:
+			fn := r.Fn.(*ssa.Function)
+			for i, b := range r.Bindings {
+				if b == fv && !fvReadOnly(fn.FreeVars[i]) {
+					return false
+				}
+			}
+		default:
+			return false
+		}
+	}
+	return true
+}
+
+// escapes: the variable cannot be modelled as a frame-local state variable.  A variable captured only by
+// closures that never write it stays local: parent and closures resolve it to the same state variable.
 func escapes(a *ssa.Alloc) bool {
 	refs := a.Referrers()
 	if refs == nil {
@@ -380,6 +409,13 @@ func escapes(a *ssa.Alloc) bool {
 	}
 	for _, r := range *refs {
 		switch r := r.(type) {
+		case *ssa.MakeClosure:
+			fn := r.Fn.(*ssa.Function)
+			for i, b := range r.Bindings {
+				if b == a && !fvReadOnly(fn.FreeVars[i]) {
+					return true
+				}
+			}
 		case *ssa.Store:
 			if r.Val == a {
 				return true
@@ -448,6 +484,13 @@ func (vc *VC) addrOf(fr *Frame, n *Node, v ssa.Value) *LVal {
 	case *ssa.FreeVar:
 		t := v.Type().(*types.Pointer).Elem()
 		ref := fr.regs[v]
+		if !isAggregate(t) && !isArrayType(t) && fvReadOnly(v) {
+			// read-only capture without a binding in this VC (closure verified as a root): its own cell, arbitrary content
+			name := fmt.Sprintf("L$%s$fv.%s", fr.prefix, v.Name())
+			vc.svar(name, vc.srt.sortOf(t), t)
+			lv = &LVal{kind: lvLocal, sv: name, typ: t}
+			break
+		}
 		if isAggregate(t) {
 			lv = &LVal{kind: lvHeap, ref: ref, root: t, typ: t}
 		} else if _, isArr := t.Underlying().(*types.Array); isArr {
